@@ -417,6 +417,7 @@ class EcoMAX(PhysicalDevice):
         """Shutdown tasks for the ecoMAX controller and sub-devices."""
         mixers: dict[str, Mixer] = self.get_nowait(ATTR_MIXERS, {})
         thermostats: dict[str, Thermostat] = self.get_nowait(ATTR_THERMOSTATS, {})
-        devices = (mixers | thermostats).values()
+        # Mixers and thermostats are indexed independently, don't merge them.
+        devices = (*mixers.values(), *thermostats.values())
         await asyncio.gather(*(device.shutdown() for device in devices))
         await super().shutdown()
